@@ -6,6 +6,7 @@ depends on this file.  The driver is a stateless line evaluator, so an op carrie
       OP = (parse xH F) | (add i xH) | (select i F) | (filter i F) | (attenuate i ITEM…)
          | (discharge i xLOC xKA CB xRND…) | (verify i) | (validate i REQ…) | (clone i)
          | (header i) | (len i) | (error i) | (undischarged i) | (undischargedFor i xLOC) | (count i F)
+         | (any i F) | (uuids i)
       one output token per op: `<result>~<state of every live bundle>`, tokens joined by " | "
 
   (cache.run (sem share|copy) (order kid|text) (scope every|that) (keys …) (trust …) xPERMLOC (ttl N) (hdrs xH…) (NOW OP)…)
@@ -19,6 +20,7 @@ depends on this file.  The driver is a stateless line evaluator, so an op carrie
 
   F    = default | all | none | perm | (loc xL) | ver | unv | failed | malformed | nonmac | wf
        | (and F F) | (or F F) | (not F) | (withDischarges F) | (missing xLOC) | (allows REQ…)
+       | flyPerm | flyAuth | flyNewAuth | flySecrets | (forOrg ORG SEC NSEC) | (forOrgUnv ORG)
   ITEM = (c CAV) | (new3p xLOC xTICKET xRN xNONCE)
   CB   = (ok ITEM…) | err | (ifnone ITEM…)        -- ifnone: refuse a ticket that carries caveats
 -/
@@ -41,6 +43,12 @@ partial def filter? : Sx → Option Filter
   | .atom "malformed" => some .isMalformed
   | .atom "nonmac" => some .isNonMacaroon
   | .atom "wf" => some .isWellFormed
+  | .atom "flyPerm" => some .flyioIsPermissionToken
+  | .atom "flyAuth" => some .flyioIsAuthToken
+  | .atom "flyNewAuth" => some .flyioIsNewAuthToken
+  | .atom "flySecrets" => some .flyioIsSecretsToken
+  | .list [.atom "forOrg", o, sec, nsec] => do some (.flyioIsForOrg (← u64? o) (← sec.int?) (← nsec.nat?))
+  | .list [.atom "forOrgUnv", o] => do some (.isForOrgUnverified (← u64? o))
   | .list [.atom "loc", l] => do some (.location (← l.bytes?))
   | .list [.atom "and", a, b] => do some (.and (← filter? a) (← filter? b))
   | .list [.atom "or", a, b] => do some (.or (← filter? a) (← filter? b))
@@ -165,6 +173,14 @@ def bundleOp (sc : Bundle.DischargeScope) (R : Bundle.Resolver) (pl : Bytes) (s 
   | .list [.atom "undischargedFor", i, loc] => do
     let i ← i.nat?
     some (s, "u:" ++ ",".intercalate ((((s.get i).view s.heap).undischargedTicketsFor (← loc.bytes?)).map hx))
+  | .list [.atom "any", i, f] => do
+    let i ← i.nat?
+    let f ← filter? f
+    let b := (s.get i).view s.heap
+    some (s, toString (!(f.apply b.permLoc b.ts).isEmpty))
+  | .list [.atom "uuids", i] => do
+    let i ← i.nat?
+    some (s, "n:" ++ ",".intercalate ((((s.get i).view s.heap).flyioNonces).map fun kr => hx kr.1 ++ ":" ++ hx kr.2))
   | .list [.atom "count", i, f] => do
     let i ← i.nat?
     let f ← filter? f
